@@ -402,11 +402,11 @@ Section Sp.
   Qed.
 
   (* ------------------------------------------- frames through the decoder *)
-  Definition admitted (len : N) : Prop :=
+  Definition letin (len : N) : Prop :=
     msg_size_valid len = true /\ (r_rcvmax cfg = 0 \/ len <= r_rcvmax cfg) /\ len <= r_allocmax cfg.
-  Definition msg_admitted (m : sp_msg) : Prop := admitted (N.of_nat (length (sp_wire m))).
+  Definition msg_letin (m : sp_msg) : Prop := letin (N.of_nat (length (sp_wire m))).
 
-  Lemma head_decide_tx len : admitted len -> head_decide cfg (tx_head k len) = ([RAlloc len], Some len).
+  Lemma head_decide_tx len : letin len -> head_decide cfg (tx_head k len) = ([RAlloc len], Some len).
   Proof.
     intros (HV & HR & HA). unfold head_decide. fold k.
     assert (L64: len < 2 ^ 64).
@@ -426,12 +426,12 @@ Section Sp.
     assert (E2: (r_allocmax cfg <? len) = false) by (apply N.ltb_ge; exact HA). rewrite E2. reflexivity.
   Qed.
 
-  Lemma sp_feed_frame m rest : msg_admitted m ->
+  Lemma sp_feed_frame m rest : msg_letin m ->
     sp_feed cfg sp_dinit (frame k m ++ rest) =
       (fst (sp_feed cfg sp_dinit rest),
        [RAlloc (N.of_nat (length (sp_wire m))); RDeliver (sp_wire m)] ++ snd (sp_feed cfg sp_dinit rest)).
   Proof.
-    intros HA. unfold msg_admitted in HA. unfold frame, sp_wire in *.
+    intros HA. unfold msg_letin in HA. unfold frame, sp_wire in *.
     rewrite app_length, Nat2N.inj_add in HA.
     set (len := N.of_nat (length (sp_hdr m)) + N.of_nat (length (sp_body m))) in *.
     assert (LW: N.of_nat (length (sp_hdr m ++ sp_body m)) = len) by (rewrite app_length, Nat2N.inj_add; reflexivity).
@@ -467,7 +467,7 @@ Section Sp.
       pose proof hl_pos; try lia. reflexivity.
   Qed.
 
-  Theorem sp_feed_frames : forall ms, Forall msg_admitted ms ->
+  Theorem sp_feed_frames : forall ms, Forall msg_letin ms ->
     sp_feed cfg sp_dinit (frames ms) = (sp_dinit, frame_events ms).
   Proof.
     induction ms as [|m ms IH]; intros HA.
@@ -497,7 +497,7 @@ Section Sp.
   Qed.
 
   (* ---- the receiver as coded, on every cutting of a stream of frames ---- *)
-  Theorem rx_all_cuts ms ps st0 : rx_init k = Some st0 -> Forall msg_admitted ms -> concat ps = frames ms ->
+  Theorem rx_all_cuts ms ps st0 : rx_init k = Some st0 -> Forall msg_letin ms -> concat ps = frames ms ->
     exists st', rx_feed_all cfg st0 ps = Some (st', frame_events ms) /\ R st' sp_dinit.
   Proof.
     intros HI HA HC.
@@ -513,7 +513,7 @@ Section Sp.
       exists c'. split; [exact HS|exact HR].
   Qed.
 
-  Theorem rx_all_cuts_prefix ms ps pre post st0 : rx_init k = Some st0 -> Forall msg_admitted ms ->
+  Theorem rx_all_cuts_prefix ms ps pre post st0 : rx_init k = Some st0 -> Forall msg_letin ms ->
     pre ++ post = frames ms -> concat ps = pre ->
     exists st' ev, rx_feed_all cfg st0 ps = Some (st', ev) /\
       (exists n, ev = firstn n (frame_events ms)) /\
@@ -539,7 +539,7 @@ Section Sp.
   Qed.
 
   (* the same through single completions (each piece is what one readv returned) *)
-  Theorem rx_steps_cuts ms ps st0 : rx_init k = Some st0 -> Forall msg_admitted ms -> concat ps = frames ms ->
+  Theorem rx_steps_cuts ms ps st0 : rx_init k = Some st0 -> Forall msg_letin ms -> concat ps = frames ms ->
     fits sp_dinit ps ->
     exists st', rx_steps cfg st0 ps = Some (st', frame_events ms) /\ R st' sp_dinit.
   Proof.
